@@ -683,7 +683,16 @@ def oracle(c, r, pub):
             return None
         cas = [supply_id(e) in (2, 3) for e in encs]
         if rt in (3, 4) and len(set(cas)) > 1:
-            return None                # SPSDK refuses tables whose records differ in the CA flag
+            # same keys, some given as CA certificates: the property demands the CA-independent value; the only excused outcome
+            # is the recorded one (finding C03-F1: the records then differ in the CA flag and verify() refuses the table)
+            if h[0] == "e" and h[1] == 1:
+                return (f"{op}:{name}:ca-certificate-mix-refused",
+                        f"{c['family']}: four valid keys are refused when only some of them are given as CA certificates: {c['keys']}")
+            if h[0] == "e":
+                return (f"{op}:{name}:rejects-valid", f"{c['family']} keys {c['keys']} -> {h}")
+            if bytes.fromhex(h[1]) != spec_ahab(pks, False, rt == 4):
+                return (f"{op}:{name}:wrong-hash", f"{c['family']} {c['keys']} -> {h[1]}, documented {spec_ahab(pks, False, rt == 4).hex()}")
+            return None
         if h[0] == "e":
             if any(supply_id(e) == 1 for e in encs) and False:
                 return None
@@ -720,7 +729,7 @@ def oracle(c, r, pub):
             return ("keyhash:cert-vs-key", f"{c['key']}")
     elif op == "rkht":
         pks = [pub[k] for k, _ in c["keys"]]
-        if in_domain(c["ver"], pks) and not any(supply_id(e) == 3 for _, e in c["keys"]):
+        if in_domain(c["ver"], pks):
             want = spec_v1(pks) if c["ver"] == 1 else spec_v21(pks)
             if r["rkth"] != ["ok", want.hex()]:
                 return (f"rkht:v{c['ver']}:wrong", f"{c['keys']} -> {r['rkth']}, documented {want.hex()}")
@@ -832,7 +841,7 @@ def oracle_cb21(c, r, pub):
     pks = [pub[k] for k, _ in c["keys"]]
     encs = [e for _, e in c["keys"]]
     used = c["used"]
-    valid = in_domain(21, pks) and used < len(pks) and not any(supply_id(e) == 3 for e in encs)
+    valid = in_domain(21, pks) and used < len(pks)
     iskp = pub[c["isk"]] if c.get("isk") else None
     ud = bytes.fromhex(c.get("user_data", ""))
     use_isk = bool(iskp) and not c.get("ca_flag")
@@ -889,7 +898,7 @@ def oracle_cb21(c, r, pub):
     p = r["parsed"]
     heur = use_isk and (12 + len(raw_material(iskp)) + len(ud)) & 0xFFFF == 0x4D43
     if p[0] == "e" or p[1]["reexport"] != ["ok", r["export"][1]]:
-        if heur:
+        if heur and p[0] == "e" and p[1] == 1:
             return ("cb21:parse:0x4D43-heuristic", f"ISK with {len(ud)} bytes of user data: signature offset & 0xFFFF == 0x4D43, "
                                                    f"parse takes the block for an offset-less certificate: {p if p[0] == 'e' else 're-export differs'}")
         return ("cb21:parse-export", f"{c['keys']} used {used}: parse(export(x)) -> {p if p[0] == 'e' else 're-export differs'}")
@@ -971,7 +980,7 @@ def run(tier):
     for c, r in zip(flat, results):
         if c["op"] in ("rot", "cli") and c["rt"] != 6:
             encs = [e for _, e in c["keys"]]
-            if any(supply_id(e) == 3 for e in encs) or (c["rt"] == 5 and any("cert" not in e for e in encs)):
+            if c["rt"] == 5 and any("cert" not in e for e in encs):
                 continue
             ca = tuple(supply_id(e) in (2, 3) for e in encs) if c["rt"] in (3, 4, 5) else ()
             groups.setdefault((c["rt"], tuple(k for k, _ in c["keys"]), ca), []).append((c, r["hash"][:2]))
